@@ -1553,10 +1553,23 @@ impl<'r> Lowerer<'r> {
                 })
             }
             ValueKind::Constant => {
-                if !fields.is_empty() {
-                    panic!("Getting fields of constants not supported yet")
+                if fields.is_empty() {
+                    return Value::Constant(*name, root_ty);
                 }
-                Value::Constant(*name, root_ty)
+
+                // To get a field of a constant, we copy the constant into
+                // a temporary and take the field of that.
+                let var = self
+                    .assign_to_var(Value::Constant(*name, root_ty), root_ty);
+
+                let projection =
+                    fields.iter().map(|f| Projection::Field(f.0)).collect();
+
+                Value::Clone(Place {
+                    var,
+                    root_ty,
+                    projection,
+                })
             }
             ValueKind::Context(x) => Value::Context(*x),
         }
